@@ -152,6 +152,7 @@ func init() {
 		cometPath + ".vF64":        func(fr *frame, a []value) value { return vInput(types.Float64, a[0].(string)) },
 		cometPath + ".vInt":        func(fr *frame, a []value) value { return vInput(types.Int, a[0].(string)) },
 		cometPath + ".vI64":        func(fr *frame, a []value) value { return vInput(types.Int64, a[0].(string)) },
+		cometPath + ".vI8":         func(fr *frame, a []value) value { return vInput(types.Int8, a[0].(string)) },
 		cometPath + ".vU8":         func(fr *frame, a []value) value { return vInput(types.Uint8, a[0].(string)) },
 		cometPath + ".vU16":        func(fr *frame, a []value) value { return vInput(types.Uint16, a[0].(string)) },
 		cometPath + ".vU32":        func(fr *frame, a []value) value { return vInput(types.Uint32, a[0].(string)) },
@@ -177,6 +178,13 @@ func init() {
 		cometPath + ".vIteF64":     func(fr *frame, a []value) value { return symIte(types.Float64, a[0], a[1], a[2]) },
 		cometPath + ".vIteInt":     func(fr *frame, a []value) value { return symIte(types.Int, a[0], a[1], a[2]) },
 		cometPath + ".vConcrete":   extIsConcrete,
+		cometPath + ".vUseLemma": func(fr *frame, a []value) value {
+			if a[0].(string) == "sqabs" {
+				X.lemmaSqAbs = true
+				return nil
+			}
+			panic(engineError{"unknown lemma " + a[0].(string)})
+		},
 		cometPath + ".vF16Spec":    extF16Spec,
 		cometPath + ".vF16ToF32Spec": extF16ToF32Spec,
 	} {
